@@ -459,6 +459,6 @@ package collect
 //@   assert only none
 //@   requires i != nil && i.SamplerFactory != nil && i.StressRelief != nil
 //@   let f = i.SamplerFactory
-//@   ensures[the-registry-is-cleared-once] clearedN(f) == old(clearedN(f)) + 1
-//@   loop 1 invariant[workers-are-told-only-after-the-registry-is-cleared] clearedN(f) == old(clearedN(f)) + 1
+//@   ensures[the-registry-is-cleared] clearedN(f) > old(clearedN(f))
+//@   loop 1 invariant[workers-are-told-only-after-the-registry-is-cleared] clearedN(f) > old(clearedN(f))
 //@   modifies all(clearedN), all(sentN)
